@@ -31,7 +31,8 @@ CONSTANTS Macs,        \* hardware addresses
           Far,         \* an address outside the subnet
           ReqHosts,    \* host names a client may send ("" = none)
           StaticHosts, \* host names an administrator may give ("" = none)
-          MaxStatic    \* model bound: number of reservations
+          MaxStatic,   \* model bound: number of reservations
+          LeaseT       \* the configured lease time, in clock ticks
 
 VARIABLES ls,    \* the lease table: set of lease records
           disk   \* the persisted table
@@ -42,27 +43,33 @@ Subnet == Pool \cup Outs \cup {GW}
 \* The name the server derives from an address when the client sends none.
 GenName(a) == "g" \o ToString(a)
 
-\* A lease.  st: reservation (static).  ak: acknowledged and unexpired
-\* (always TRUE for reservations).  host: "" = none.
-Lease(m, a, st, ak, h) == [mac |-> m, ip |-> a, st |-> st, ak |-> ak, host |-> h]
+\* A lease.  st: reservation (static).  rem: the number of clock ticks for
+\* which the client may still use the address according to the LAST DHCPACK it
+\* was sent (every DHCPACK announces LeaseT ticks, so rem is "announced
+\* expiry minus now"); 0 = merely offered, or expired.  Reservations do not
+\* expire (rem is 0 and not used).  host: "" = none.
+\* Lease(.., ak, ..): ak = freshly acknowledged.
+Lease(m, a, st, ak, h) ==
+    [mac |-> m, ip |-> a, st |-> st, rem |-> IF ak /\ ~st THEN LeaseT ELSE 0, host |-> h]
 
 \* A table S is a set of leases.
 Of(S, m)  == {l \in S : l.mac = m}
 On(S, a)  == {l \in S : l.ip = a}
-Held(l)   == l.st \/ l.ak
+Held(l)   == l.st \/ l.rem > 0
 
 \* ------------------------------------------------------------------ replies
 \* What the client (or the administrator) sees.  "refuse" is a DHCPNAK or
 \* silence -- the statement does not distinguish them.  "any" is used for
 \* DECLINE and RELEASE, for which RFC 2131 defines no reply; the harness
 \* still checks that a yiaddr carried by such a reply is the client's lease.
-Offer(a) == [k |-> "offer", ip |-> a]
-Ack(a)   == [k |-> "ack", ip |-> a]
-Refuse   == [k |-> "refuse", ip |-> 0]
-AnyR     == [k |-> "any", ip |-> 0]
-Ok       == [k |-> "ok", ip |-> 0]
-Err      == [k |-> "err", ip |-> 0]
-None     == [k |-> "none", ip |-> 0]
+\* t is the lease time a DHCPACK announces to the client.
+Offer(a) == [k |-> "offer", ip |-> a, t |-> 0]
+Ack(a)   == [k |-> "ack", ip |-> a, t |-> LeaseT]
+Refuse   == [k |-> "refuse", ip |-> 0, t |-> 0]
+AnyR     == [k |-> "any", ip |-> 0, t |-> 0]
+Ok       == [k |-> "ok", ip |-> 0, t |-> 0]
+Err      == [k |-> "err", ip |-> 0, t |-> 0]
+None     == [k |-> "none", ip |-> 0, t |-> 0]
 
 Outc(S, o) == [dst |-> S, out |-> o]
 
@@ -110,7 +117,9 @@ HostChoices(S, l, h) ==
 \* The three kinds (selecting, init-reboot, renew) differ in how the packet
 \* names the address; the table treats them alike: acknowledged iff the
 \* address is the client's own lease.  A reservation is acknowledged without
-\* changing the table; a dynamic lease becomes acknowledged (fresh expiry).
+\* changing the table; a dynamic lease becomes acknowledged for the full
+\* lease time again -- whenever in its life the request comes (immediately,
+\* early, late or after expiry): the client has been TOLD LeaseT ticks.
 RequestOut(S, m, kind, a, h) ==
     LET mine == {l \in Of(S, m) : l.ip = a} IN
     IF mine = {} THEN {Outc(S, Refuse)}
@@ -139,11 +148,21 @@ ReleaseOut(S, m, a) ==
     LET mine == {l \in Of(S, m) : l.ip = a /\ ~l.st} IN
     IF mine = {} THEN {Outc(S, AnyR)} ELSE {Outc(S \ mine, AnyR)}
 
-\* ------------------------------------------------------------------- expiry
-\* The acknowledged dynamic lease on address a runs out.  Independent of
-\* everything else, so that TLC interleaves it with allocation in all ways.
+\* --------------------------------------------------------------------- time
+\* The clock advances by one tick: every acknowledged dynamic lease has one
+\* tick less to live.  (Enabled while some lease is running; otherwise the
+\* passage of time changes nothing.)
+Running(S) == {l \in S : ~l.st /\ l.rem > 0}
+TickOut(S) ==
+    IF Running(S) = {} THEN {}
+    ELSE {Outc({IF l \in Running(S) THEN [l EXCEPT !.rem = @ - 1] ELSE l : l \in S}, None)}
+
+\* A long time passes for the acknowledged dynamic lease on address a alone
+\* (it had been acknowledged long before the others): it runs out.
+\* Independent of everything else, so that TLC interleaves expiry with
+\* allocation in all orders and not only in the order of acknowledgement.
 ExpireOut(S, a) ==
-    {Outc((S \ {l}) \cup {[l EXCEPT !.ak = FALSE]}, None) : l \in {x \in On(S, a) : ~x.st /\ x.ak}}
+    {Outc((S \ {l}) \cup {[l EXCEPT !.rem = 0]}, None) : l \in {x \in On(S, a) : ~x.st /\ x.rem > 0}}
 
 \* ------------------------------------------------------------- reservations
 Statics(S) == {l \in S : l.st}
@@ -208,6 +227,7 @@ Discover(m)           == \E o \in DiscoverOut(ls, m) : Take(o)
 Request(m, k, a, h)   == \E o \in RequestOut(ls, m, k, a, h) : Take(o)
 Decline(m, a)         == \E o \in DeclineOut(ls, m, a) : Take(o)
 Release(m, a)         == \E o \in ReleaseOut(ls, m, a) : Take(o)
+Tick                  == \E o \in TickOut(ls) : Take(o)
 Expire(a)             == \E o \in ExpireOut(ls, a) : Take(o)
 AddStatic(m, a, h)    == /\ Cardinality(Statics(ls)) < MaxStatic
                          /\ \E o \in AddStaticOut(ls, m, a, h) : Take(o)
@@ -229,6 +249,7 @@ Next == \/ \E m \in Macs : Discover(m)
         \/ \E m \in Macs, k \in Kinds, a \in ReqAddrs, h \in ReqHosts : Request(m, k, a, h)
         \/ \E m \in Macs, a \in ReqAddrs : Decline(m, a)
         \/ \E m \in Macs, a \in ReqAddrs : Release(m, a)
+        \/ Tick
         \/ \E a \in Pool : Expire(a)
         \/ \E m \in Macs, a \in StatAddrs, h \in StaticHosts : AddStatic(m, a, h)
         \/ \E m \in Macs, a \in StatAddrs, h \in StaticHosts : UpdateStatic(m, a, h)
@@ -244,6 +265,17 @@ Spec == Init /\ [][Next]_vars
 OneHolderPerAddress ==
     \A l1, l2 \in ls : Held(l1) /\ Held(l2) /\ l1.ip = l2.ip => l1 = l2
 KeyedByAddress == \A l1, l2 \in ls : l1.ip = l2.ip => l1 = l2
+Gives(o) == o.out.k \in {"offer", "ack"}
+\* The same, seen from the client: an address that the last DHCPACK to some
+\* client still covers (announced expiry not reached) is never offered or
+\* acknowledged to another client, whatever anybody sends.
+NoReuseBeforeAnnouncedExpiry ==
+    \A m \in Macs :
+      LET outs == DiscoverOut(ls, m)
+                  \cup UNION {RequestOut(ls, m, k, a, h) : k \in Kinds, a \in ReqAddrs, h \in ReqHosts}
+      IN  \A o \in outs : Gives(o) =>
+            /\ \A l \in ls : l.ip = o.out.ip /\ l.mac # m => ~Held(l)
+            /\ o.out.k = "ack" => \A l \in On(o.dst, o.out.ip) : l.mac = m /\ (l.st \/ l.rem = o.out.t)
 \* "and a client holds at most one lease"
 OneLeasePerClient == \A l1, l2 \in ls : l1.mac = l2.mac => l1 = l2
 \* "dynamic addresses lie inside the configured pool and never coincide with
@@ -255,7 +287,6 @@ DynamicInsidePool ==
 \* "a client with a reservation is only ever given that address": whatever
 \* the client sends, no admissible reply names another address and no
 \* admissible outcome gives it another lease.
-Gives(o) == o.out.k \in {"offer", "ack"}
 ReservedClientGetsReservation ==
     \A l \in Statics(ls) :
       LET m == l.mac
@@ -278,9 +309,9 @@ HostAnswers(S) == {<<l.ip, l.host>> : l \in S}
 RestartRestoresSameTable ==
     \A o \in RestartOut(disk) : o.dst = ls /\ HostAnswers(o.dst) = HostAnswers(ls)
 \* Structure: names are unique (the name -> address answer is a function);
-\* reservations count as acknowledged.
+\* nothing lives longer than the lease time.
 HostsUnique == \A l1, l2 \in ls : l1.host # "" /\ l1.host = l2.host => l1 = l2
-StaticsHeld == \A l \in ls : l.st => l.ak
+RemBounded == \A l \in ls : l.rem \in 0..LeaseT /\ (l.st => l.rem = 0)
 BoundedStatics == Cardinality(Statics(ls)) <= MaxStatic
 
 \* ----------------------------------------- emission for the Go harness (A)
@@ -289,11 +320,11 @@ BoundedStatics == Cardinality(Statics(ls)) <= MaxStatic
 \* outcome set.  The harness walks the real server through the states it
 \* reaches, tries every action instance in each of them and looks the
 \* observed (post-state, reply) up here.  Leases are encoded as
-\* <<mac, ip, 2*static + acknowledged, host>> to keep the lines short.
-EncL(l)  == <<l.mac, l.ip, (IF l.st THEN 2 ELSE 0) + (IF l.ak THEN 1 ELSE 0), l.host>>
+\* <<mac, ip, rem (-1 for a reservation), host>> to keep the lines short.
+EncL(l)  == <<l.mac, l.ip, IF l.st THEN -1 ELSE l.rem, l.host>>
 EncS(S)  == {EncL(l) : l \in S}
-EncO(S, o) == IF o.dst = S THEN <<TRUE, {}, o.out.k, o.out.ip>>
-              ELSE <<FALSE, EncS(o.dst), o.out.k, o.out.ip>>
+EncO(S, o) == IF o.dst = S THEN <<TRUE, {}, o.out.k, o.out.ip, o.out.t>>
+              ELSE <<FALSE, EncS(o.dst), o.out.k, o.out.ip, o.out.t>>
 E(S, name, m, k, a, h, outs, dflts) ==
     IF outs = {Outc(S, d) : d \in dflts} \/ outs = {} THEN {}
     ELSE {<<name, m, k, a, h, {EncO(S, o) : o \in outs}>>}
@@ -303,6 +334,7 @@ Edges(S, D) ==
                 : m \in Macs, k \in Kinds, a \in ReqAddrs, h \in ReqHosts}
     \cup UNION {E(S, "Decline", m, "", a, "", DeclineOut(S, m, a), {AnyR}) : m \in Macs, a \in ReqAddrs}
     \cup UNION {E(S, "Release", m, "", a, "", ReleaseOut(S, m, a), {AnyR}) : m \in Macs, a \in ReqAddrs}
+    \cup E(S, "Tick", "", "", 0, "", TickOut(S), {None})
     \cup UNION {E(S, "Expire", "", "", a, "", ExpireOut(S, a), {None}) : a \in Pool}
     \cup (IF Cardinality(Statics(S)) < MaxStatic
           THEN UNION {E(S, "AddStatic", m, "", a, h, AddStaticOut(S, m, a, h), {Err})
